@@ -9,7 +9,7 @@
      iterate   : the whole iteration holds the lock
    Files are byte lists; texts are single-line (no 10, no 13). *)
 From Coq Require Import ZArith List Bool Arith.
-From WPU Require Import Common.Val.
+From WPU Require Import Common.Val Model.Pool.
 Import ListNotations.
 Open Scope nat_scope.
 
@@ -38,8 +38,6 @@ Record sstate := mkSS {
 Definition sinit (presize : nat) (progs : list (list sop)) : sstate :=
   mkSS (repeat None presize) [] 0 0 None (map (fun pr => mkP None pr PIdle []) progs) [].
 
-Fixpoint set_nth {A} (n : nat) (x : A) (l : list A) : list A :=
-  match l, n with [], _ => [] | _ :: t, O => x :: t | h :: t, S k => h :: set_nth k x t end.
 
 (* readline from a byte offset, then rstrip of the line terminators *)
 Fixpoint take_line (l : list Z) : list Z :=
